@@ -11,10 +11,11 @@
 (* The expected answer is Expected3 of EqContract.tla; an event may fail several clauses.           *)
 (* History events (op = "mut"): x was built at valuation x (motion mark MotBefore(mk)), compared and *)
 (* hashed first iff warm = 1, then changed in place by the public mutator `mut` of kind mk:          *)
-(*   [cls, x, y, mk, mut, warm, mut_res ("ok" / "exc:<Type>"),                                      *)
+(*   [cls, x, y, mk, mut, warm, mut_res ("ok" / "exc:<Type>"), n (update_initial_state: max length), *)
 (*    eq_xy, eq_yx, ne_xy   mutated == fresh(y), fresh(y) == mutated, mutated != fresh(y)           *)
 (*    stale_eq              mutated == fresh(x)   (a fresh object with the OLD values)              *)
 (*    hash_x, hash_y, hash_equal   hash(mutated), hash(fresh(y)), equal                             *)
+(*    hash_old              hash(fresh(x)) status                                                   *)
 (*    sig]                  "<Class>.<mutator>" (warm) / "<Class>.<mutator>@cold"                   *)
 EXTENDS EqContract, IOUtils
 Traces == ndJsonDeserialize(IOEnv.TRACE_FILE)
@@ -58,18 +59,22 @@ ShapeMut(e) ==
   ELSE IF ~(IsValuation(e.cls, e.x) /\ IsValuation(e.cls, e.y)) THEN "machinery/bad-valuation"
   ELSE IF e.mk \notin MutKinds THEN "machinery/unknown-mutator-kind"
   ELSE IF ~IsMutation(e.cls, e.mk, e.x, e.y) THEN "machinery/not-a-mutation"
+  ELSE IF e.n \notin AdvLengths \/ (e.mk # "adv" /\ e.n # 0) THEN "machinery/bad-history-length"
   ELSE IF e.mut_res # "ok" THEN "driver/mutator-raised"      \* the table promises an applicable public mutator
   ELSE IF {e.eq_xy, e.eq_yx, e.ne_xy, e.stale_eq} \subseteq 0..2 /\ e.hash_equal \in 0..1 /\ e.warm \in 0..1 THEN ""
   ELSE "machinery/bad-field"
 
 ClausesMut(e) ==
   LET before == Desc(e.x, MotBefore(e.mk))
-      after  == Desc(e.y, MotAfter(e.mk))
+      after  == DescA(e.y, MotAfter(e.mk), IF e.mk = "adv" THEN AdvMark(e.x, e.n) ELSE <<>>)
       differ == ~ExpectedEqD(e.cls, before, after)           \* IsMutation guarantees it; kept for the reader
   IN  (IF differ /\ e.stale_eq = 1 THEN {"C12.Current/eq-stale"} ELSE {})
       \cup (IF e.eq_xy # 1 \/ e.eq_yx # 1 THEN {"C12.Current/ne-fresh"} ELSE {})
       \cup (IF (e.hash_y = "ok" /\ e.hash_x # "ok") \/ (e.hash_x = "ok" /\ e.hash_y = "ok" /\ e.hash_equal # 1)
             THEN {"C12.Current/hash"} ELSE {})
+      \* hash() must not raise for an object the public API produced: blamed on the mutator when an object with
+      \* the old values could still be hashed
+      \cup (IF e.hash_old = "ok" /\ e.hash_x # "ok" THEN {"C12.HashTotal"} ELSE {})
       \cup (IF e.eq_xy # e.eq_yx THEN {"C12.Symmetric"} ELSE {})
       \cup (IF (e.eq_xy \in 0..1 /\ e.ne_xy # 1 - e.eq_xy) THEN {"C12.NeConsistent"} ELSE {})
 
